@@ -240,6 +240,12 @@ def stepLine (m : Mode) (line : String) : Mode × String :=
       | none => (.none, "bad-op")
     | none => (.none, "bad-op")
   | .none, ["stress", _, _] => (.none, "done")
+  | .none, ["fallback", kind] =>
+    if kind = "socket" || kind = "accept" || kind = "open" then
+      match Compio.Produced.run Compio.Produced.init [.poll, .completeFallback, .poll] with
+      | some p => (.none, if p.taken.any (p.closed.contains ·) then "own=0" else "own=1")
+      | none => (.none, "bad-op")
+    else (.none, "bad-op")
   | .none, ["rt", d, kind] =>
     if (d = "iour" || d = "poll") && (kind = "file" || kind = "unix" || kind = "tcp") then
       let s := init false
